@@ -24,6 +24,7 @@
 #include "llbuild/Basic/LLVM.h"
 #include "llbuild/Basic/PlatformUtility.h"
 #include "llbuild/Basic/ShellUtility.h"
+#include "llbuild/Basic/Stat.h"
 #include "llbuild/BuildSystem/BuildFile.h"
 #include "llbuild/BuildSystem/BuildKey.h"
 #include "llbuild/BuildSystem/BuildNode.h"
@@ -1491,7 +1492,7 @@ class DirectoryTreeStructureSignatureTask : public Task {
       // it changes type.
       auto value = BuildValue::fromData(directoryValue);
       if (value.isDirectoryContents()) {
-        code = hash_combine(code, value.getOutputInfo().mode);
+        code = hash_combine(code, value.getOutputInfo().mode & S_IFMT);
       } else {
         code = hash_combine(
             code, hash_combine_range(directoryValue.begin(),
@@ -1506,7 +1507,7 @@ class DirectoryTreeStructureSignatureTask : public Task {
       code = hash_combine(code, info.filename);
       auto value = BuildValue::fromData(info.value);
       if (value.isExistingInput()) {
-        code = hash_combine(code, value.getOutputInfo().mode);
+        code = hash_combine(code, value.getOutputInfo().mode & S_IFMT);
       } else {
         // If this node has been modified to report a non-file value, just merge
         // the encoded representation.
